@@ -499,7 +499,7 @@ class FnVals:
         aggs = [a for a in leaves if a is not None]
         inner = None
         sel = [a for a in aggs if a.d["agg"].get("variant") in want]
-        if sel and (len(leaves) > 1 or base.kind != "agg"):
+        if sel:
             node.d["sel"] = sel
         return node
 
